@@ -9,7 +9,7 @@ From Coq Require Import List Ascii ZArith Bool.
 From CGV Require Import Base.PyBase Base.PyVal Gen.FragGen Dialect.DialectImpl Frag.NDict Frag.StripImpl Frag.FragText
      Frag.StripFacts Frag.FragProofs Frag.FragStages Frag.FragSmall Frag.RingProofs
      Gen.SmilesGen Frag.SmilesParse Frag.SmilesSpec Frag.SmilesProofs Frag.SmilesIndex Frag.SmilesRelabel Frag.SmilesPerm
-     Frag.Template Frag.TemplateProofs Frag.TemplateFinal Frag.TemplateGraph Frag.TemplateCompose.
+     Frag.Template Frag.TemplateProofs Frag.TemplateFinal Frag.TemplateGraph Frag.TemplateCompose Frag.SmilesReverse.
 From CGV Require Import Base.NxGraph Compose.CutModel Compose.CutSpecDefs.
 Local Open Scope nat_scope.
 Import ListNotations.
@@ -296,6 +296,43 @@ Example C01_branch_order_nonvacuous :
      length (g_nodes G) = 6 /\ length (g_edges G) = 5 /\ G <> H /\
      map (swap_sigma 2 1 2) [0; 1; 2; 3; 4; 5] = [0; 1; 4; 2; 3; 5]).
 Proof. exact swap_example. Qed.
+(** text level of C01, start atom: an unbranched fragment a0 b1 a1 … bn an (organic or bracket atoms,
+    optional bond symbols; no branch, no ring marker) written from its other end denotes the same
+    graph up to the reversal i -> n - i: the node list is reversed, every bond (u,v) with order o is
+    the bond (n-v, n-u) with order o of the other graph, both fail alike; partial: chains only *)
+Theorem C01_start_atom_chain_partial : forall c, chain_ok c = true ->
+  let n := length (chain_bonds c) in
+  match graph_of false (chain_toks c), graph_of false (chain_toks (rev_chain c)) with
+  | Ok G, Ok H =>
+      g_nodes H = rev (g_nodes G) /\ length (g_nodes G) = Datatypes.S n /\
+      (forall u v o, In (u, v, o) (g_edges G) -> In (n - v, n - u, o) (g_edges H)) /\
+      (forall u v o, In (u, v, o) (g_edges H) -> In (n - v, n - u, o) (g_edges G)) /\
+      g_ez G = [] /\ g_ez H = []
+  | Err e, Err e' => e = e'
+  | _, _ => False
+  end.
+Proof. exact chain_reverse. Qed.
+Theorem C01_start_atom_chain_text_partial : forall c, chain_ok c = true ->
+  wf_smiles (chain_toks c) = true -> wf_smiles (chain_toks (rev_chain c)) = true ->
+  let n := length (chain_bonds c) in
+  match smiles_parse (render_smiles false (chain_toks c)), smiles_parse (render_smiles false (chain_toks (rev_chain c))) with
+  | Ok G, Ok H =>
+      g_nodes H = rev (g_nodes G) /\ length (g_nodes G) = Datatypes.S n /\
+      (forall u v o, In (u, v, o) (g_edges G) -> In (n - v, n - u, o) (g_edges H)) /\
+      (forall u v o, In (u, v, o) (g_edges H) -> In (n - v, n - u, o) (g_edges G)) /\
+      g_ez G = [] /\ g_ez H = []
+  | Err e, Err e' => e = e'
+  | _, _ => False
+  end.
+Proof. exact chain_reverse_text. Qed.
+Example C01_start_atom_nonvacuous :
+  chain_ok rv_chain = true /\
+  to_string (render_smiles false (chain_toks rv_chain)) = "C=CO[NH3+]"%string /\
+  to_string (render_smiles false (chain_toks (rev_chain rv_chain))) = "[NH3+]OC=C"%string /\
+  wf_smiles (chain_toks rv_chain) = true /\ wf_smiles (chain_toks (rev_chain rv_chain)) = true /\
+  exists G H, graph_of false (chain_toks rv_chain) = Ok G /\ graph_of false (chain_toks (rev_chain rv_chain)) = Ok H /\
+    g_edges G = [(0, 1, VInt 2); (1, 2, VInt 1); (2, 3, VInt 1)] /\ g_edges H = [(0, 1, VInt 1); (1, 2, VInt 1); (2, 3, VInt 2)].
+Proof. exact reverse_example. Qed.
 (** the documented bond orders are the ones of the installed pysmiles *)
 Theorem C13_smiles_orders : forall b, smiles_bond_to_order_lookup [bchar b] = Ok (border b).
 Proof. exact smiles_order_bchar. Qed.
@@ -321,3 +358,4 @@ Print Assumptions C13_template_nodes.
 Print Assumptions C13_template_final_of_render.
 Print Assumptions C13_template_is_template_partial.
 Print Assumptions C13_template_is_template_checked.
+Print Assumptions C01_start_atom_chain_partial.
